@@ -119,7 +119,7 @@ func (d *segmentationDescriptor) Data() []byte {
 		} else {
 			for i := range d.mid {
 				UpidData = append(UpidData, byte(d.mid[i].upidType))
-				UpidData = append(UpidData, byte(d.mid[i].upidLen))
+				UpidData = append(UpidData, byte(len(d.mid[i].upid)))
 				UpidData = append(UpidData, d.mid[i].upid...)
 			}
 		}
